@@ -82,6 +82,7 @@ def c35(t):
         dict(h="c35_txid_and_small_entries_roundtrip", file=f, bounds="all values", claim="Txid, RuneId, Rune store/load identity"),
         dict(h="c35_rune_entry_roundtrip", file=f, bounds="all field values incl. any char symbol and any Terms option pattern", claim="RuneEntry load(store(e)) == e fieldwise"),
         dict(h="c35_inscription_entry_roundtrip", file=f, bounds="all field values; parents list length 0..=2", claim="InscriptionEntry load(store(e)) == e fieldwise incl. parent order"),
+        dict(h="c35_inscription_entry_parents_order", file=f, bounds="two parents with any u32 values, other fields fixed", claim="parents read back in the order written, duplicates kept"),
         dict(h="c35_header_roundtrip", file=f, bounds="all 80-byte header field values; unwind 82", claim="Header load(store(h)) == h"),
     ]
     g = "h_utxo.rs"
@@ -237,7 +238,39 @@ def c25(t):
     return out.finish()
 
 
-PROPS = {"C25": c25, "C32": c32, "C26": c26, "C35": c35, "C10": c10, "C29": c29, "C33": c33, "C34": c34, "C31": c31}
+def c01(t):
+    out = C.Outcome("C01", "model_checking", t, ["ord::index::updater::Updater::index_transaction_sats (text extracted from src/index/updater.rs at run time)",
+                                                 "ord::index::utxo_entry::UtxoEntryBuf::{new,push_sat_ranges}"])
+    out.extra["source_digest"] = C.repo_digest(["src/index/updater.rs"] + LIFT_REAL)
+    out.assumptions = [E2_NOTE, SHIM_NOTE,
+        "one-transaction step only: Updater is a two-field shim {index, sat_ranges_since_flush}, redb's Table is a recorder; block ordering, coinbase-last, fee ranges, lost sats, duplicate txids and commit live in index_utxo_entries/commit (redb) and are NOT covered",
+        "SatRange bytes are opaque tokens with the lemma load(store(r)) == r on the 51+33-bit domain (decided by C35); every store discharges the domain conditions by a solver query",
+        "Sat::common is a nondeterministic stub, so rare-sat table writes are unconstrained and not checked; varint::encode_to_vec (ordinals crate) is modelled for concrete counts (C26 decides the real one)",
+        "inputs: 1-2 (quick) / up to 3 (thorough) sat ranges per input, 1-2 inputs, 1-3 outputs; ranges are arbitrary non-empty ranges inside the supply at most one subsidy long; output values arbitrary with sum <= inputs"]
+    run_e2(out, "C01", t)
+    return out.finish()
+
+
+def c27(t):
+    out = C.Outcome("C27", "model_checking", t, ["ord::inscriptions::inscription_id::InscriptionId::{value,from_value}"])
+    out.extra["source_digest"] = C.repo_digest(LIFT_REAL)
+    out.assumptions = [SHIM_NOTE,
+        "FRAGMENT of C27: only the compact byte encoding of inscription ids (parents / delegates) is decided. The reveal-script builder, RawEnvelope/ParsedEnvelope parsing, field chunking at 520 bytes and the pointer encoding live in src/inscriptions/{inscription,envelope,tag}.rs, which need bitcoin's script builder/Instructions iterator (CBMC: 220-590 s per 3-byte script, see DESIGN 1.1) and were not lifted",
+    ]
+    if not shim_validation(out):
+        return out.finish()
+    f = "h_insid.rs"
+    specs = [
+        dict(h="c27_inscription_id_index_roundtrip", file=f, bounds="every u32 index, fixed txid; unwind 38", claim="from_value(value(id)) == id; encoding is 32..=36 bytes without a trailing zero byte"),
+        dict(h="c27_inscription_id_from_value_total", file=f, bounds="every byte string of length 0..=37; unwind 40", claim="no panic; accepted values decode to txid = first 32 bytes, index = little-endian rest; rejected only for wrong length or a zero-terminated non-4-byte index"),
+    ]
+    if t == "thorough":
+        specs.append(dict(h="c27_inscription_id_value_roundtrip", file=f, bounds="every 32-byte txid and every u32 index", claim="from_value(value(id)) == id"))
+    kprop.decide(out, "liftk", K.gen_lift, "t-liftk", specs, jobs=3, harness_timeout=1800)
+    return out.finish()
+
+
+PROPS = {"C27": c27, "C01": c01, "C25": c25, "C32": c32, "C26": c26, "C35": c35, "C10": c10, "C29": c29, "C33": c33, "C34": c34, "C31": c31}
 
 
 def main(pid, argv):
